@@ -16,6 +16,7 @@ package c16
 import (
 	"encoding/json"
 	"fmt"
+	"math"
 	"os"
 	"path/filepath"
 	"regexp"
@@ -775,6 +776,10 @@ func propPlain(t *rapid.T) {
 	pool, random := 0, false
 	if rapid.Bool().Draw(t, "opt") {
 		pool = rapid.IntRange(-2, n+3).Draw(t, "pool")
+		if rapid.IntRange(0, 7).Draw(t, "hugePool") == 0 {
+			// "values larger than the list" has no upper end
+			pool = rapid.SampledFrom([]int{1 << 20, math.MaxInt32, math.MaxInt / 3, math.MaxInt}).Draw(t, "pool")
+		}
 		random = rapid.Bool().Draw(t, "random")
 		opt = &fpgo.PMapOption{FixedPool: pool, RandomOrder: random}
 	}
